@@ -601,13 +601,63 @@ fn treelock() {
 	let derefs: Arc<Vec<AtomicUsize>> = Arc::new((0..8).map(|_| AtomicUsize::new(0)).collect());
 	// number of DereferenceTree commit calls that have begun, per tree
 	let derefs_started: Arc<Vec<AtomicUsize>> = Arc::new((0..8).map(|_| AtomicUsize::new(0)).collect());
+	// In some executions the pruner does not wait for the successor: a tree is dereferenced as soon
+	// as it is there, while the writer (holding the read lock of that tree, as a client must when
+	// it reuses nodes) inserts the successor that shares its first child.
+	let early_prune = rc_roots && rng.gen_bool(0.5);
+	// does the last tree share a node with its predecessor? (set by the writer)
+	let last_shares = Arc::new(AtomicUsize::new(0));
 	let writer = {
 		let db = db.clone();
 		let inserted = inserted.clone();
+		let derefs_started = derefs_started.clone();
+		let last_shares = last_shares.clone();
 		thread::spawn(move || {
 			let mut prev: Option<u64> = None;
 			for t in 0..ntrees {
 				let key = vec![b't', t];
+				if early_prune && t > 0 {
+					// reuse a node of the predecessor only under its read lock, and only if its
+					// last dereference had not been submitted when the lock was obtained
+					let pkey = vec![b't', t - 1];
+					let mut done = false;
+					if let Ok(Some(r)) = db.get_tree(0, &pkey) {
+						let g = r.read();
+						let final_submitted = derefs_started[(t - 1) as usize].load(Ordering::SeqCst) >= 2;
+						if !final_submitted {
+							if let Ok(Some((_d, c))) = g.get_root() {
+								if let Some(a) = c.first().cloned() {
+									if let Err(e) = db.commit_changes(vec![(0u8, Operation::InsertTree(key.clone(), tree(t, Some(a))))]) {
+										panic!("VIOL C11 insert-failed: {e}");
+									}
+									done = true;
+									probe("successor_inserted_under_predecessor_lock");
+									if t + 1 == ntrees {
+										last_shares.store(1, Ordering::SeqCst);
+									}
+									for _ in 0..4 {
+										thread::yield_now();
+									}
+								}
+							}
+						}
+						drop(g);
+					}
+					if !done {
+						if let Err(e) = db.commit_changes(vec![(0u8, Operation::InsertTree(key.clone(), tree(t, None)))]) {
+							panic!("VIOL C11 insert-failed: {e}");
+						}
+					}
+					if let Err(e) = db.commit_changes(vec![(0u8, Operation::ReferenceTree(key.clone()))]) {
+						panic!("VIOL C11 reference-failed: {e}");
+					}
+					inserted.fetch_add(1, Ordering::SeqCst);
+					thread::yield_now();
+					continue
+				}
+				if t + 1 == ntrees && prev.is_some() {
+					last_shares.store(1, Ordering::SeqCst);
+				}
 				if let Err(e) = db.commit_changes(vec![(0u8, Operation::InsertTree(key.clone(), tree(t, prev)))]) {
 					panic!("VIOL C11 insert-failed: {e}");
 				}
@@ -638,7 +688,7 @@ fn treelock() {
 			let mut next = 0u8;
 			let mut spins = 0;
 			while next + 1 < ntrees && spins < 4000 {
-				if (inserted.load(Ordering::SeqCst) as u8) > next + 1 {
+				if (inserted.load(Ordering::SeqCst) as u8) > next + (if early_prune { 0 } else { 1 }) {
 					let key = vec![b't', next];
 					for _ in 0..(if rc_roots { 2 } else { 1 }) {
 						derefs_started[next as usize].fetch_add(1, Ordering::SeqCst);
@@ -774,6 +824,40 @@ fn treelock() {
 		}
 	}
 	probe("postponed_removals_completed");
+	// the last tree was never dereferenced: it must be complete, including the node it reuses
+	{
+		fn leaf(d: Vec<u8>) -> (Vec<u8>, Vec<(Vec<u8>, Vec<(Vec<u8>, Vec<()>)>)>) {
+			(d, Vec::new())
+		}
+		let _ = leaf;
+		// digest of the expected shape, computed the way `digest` walks the stored tree
+		fn node(data: &[u8], children: &[u64]) -> u64 {
+			let mut h = fnv(0, data);
+			for c in children {
+				h = fnv(h, &c.to_le_bytes());
+			}
+			h
+		}
+		let first_child = |id: u8| node(&[id, 1, 1, 1], &[node(&[id, 2, 2], &[])]);
+		let t = ntrees - 1;
+		let mut kids = vec![first_child(t), node(&vec![t; 40], &[])];
+		if last_shares.load(Ordering::SeqCst) == 1 {
+			kids.push(first_child(t - 1));
+		}
+		let want = node(&[t, 0], &kids);
+		match db.get_tree(0, &[b't', t]) {
+			Ok(Some(r)) => {
+				let g = r.read();
+				match digest(&**g) {
+					Ok(d) if d == want => probe("last_tree_complete"),
+					Ok(_) => panic!("VIOL C11 successor-tree-changed: the last tree (never dereferenced, reusing a node of its predecessor: {}) does not read back as inserted", last_shares.load(Ordering::SeqCst) == 1),
+					Err(e) => panic!("VIOL C11 successor-tree-invalid: the last tree (never dereferenced, reusing a node of its predecessor: {}) lost a node: {e}", last_shares.load(Ordering::SeqCst) == 1),
+				}
+			},
+			Ok(None) => panic!("VIOL C11 successor-tree-invalid: the last tree (never dereferenced) is gone"),
+			Err(e) => panic!("VIOL C11 get-tree-failed: {e}"),
+		}
+	}
 	db.verif_shutdown();
 	let mut ws: Vec<Option<thread::JoinHandle<()>>> = workers.into_iter().map(Some).collect();
 	for i in [2usize, 1, 0, 3] {
